@@ -6,6 +6,10 @@ open P2.Json
 
 theorem jsonEsc_tableOK : TableOK P2.Generated.jsonEscTable = true := by decide
 
+/-- the regenerated table is complete: the exhaustive dump was not cut off and every code point gave a
+quoted, valid UTF-8 string -/
+theorem jsonEsc_complete : P2.Generated.jsonEscTruncated = false ∧ P2.Generated.jsonEscMalformed = 0 := by decide
+
 /-- C17 instantiated at the escape behaviour of today's `jsonExporter.String`. -/
 theorem json_export_roundtrip_current (t : JTree) :
     decodeDoc (exportDoc (escOf P2.Generated.jsonEscTable) t) = some (sortTree t) :=
